@@ -11,7 +11,10 @@ pub mod c10;
 pub mod c11;
 pub mod c14;
 pub mod c15;
+pub mod c12;
 pub mod c16;
+pub mod c17;
+pub mod c19;
 pub mod c20;
 pub mod reader_props;
 
@@ -32,6 +35,9 @@ pub fn run(prop: &str, ctx: &mut Ctx) -> bool {
         "C14" => c14::run(ctx),
         "C15" => c15::run(ctx),
         "C16" => c16::run(ctx),
+        "C12" => c12::run(ctx),
+        "C17" => c17::run(ctx),
+        "C19" => c19::run(ctx),
         "C18" => reader_props::run_c18(ctx),
         "C20" => c20::run(ctx),
         _ => return false,
@@ -54,6 +60,9 @@ pub fn replay(prop: &str, ctx: &mut Ctx, file: &J) {
         "C14" => c14::replay(ctx, &case),
         "C15" => c15::replay(ctx, &case),
         "C16" => c16::replay(ctx, &case),
+        "C12" => c12::replay(ctx, &case),
+        "C17" => c17::replay(ctx, &case),
+        "C19" => c19::replay(ctx, &case),
         "C20" => c20::replay(ctx, &case),
         "C02" | "C05" | "C09" | "C13" | "C18" => reader_props::replay(prop, ctx, &case),
         _ => {}
